@@ -6,6 +6,7 @@ namespace IpcHub.Pipeline
 
 def genCfg : Cfg where
   flvWaitsForParameterSets := IpcHub.Gen.flvWaitsForParameterSets
+  flvValidatesSps := IpcHub.Gen.flvValidatesSps
   tsAacChecked := IpcHub.Gen.tsAacChecked
   tsAvcSkips79 := IpcHub.Gen.tsAvcSkips79
   cache264Checked := IpcHub.Gen.cache264Checked
@@ -14,6 +15,7 @@ def genCfg : Cfg where
 /-- the pinned tree (49348c9) -/
 def pinnedCfg : Cfg where
   flvWaitsForParameterSets := false
+  flvValidatesSps := false
   tsAacChecked := false
   tsAvcSkips79 := true
   cache264Checked := false
